@@ -128,6 +128,29 @@ WAVE3_NOTE = {
  "C16-E": "reported by C15 only on arrival; C16-R7 added",
  "C16-F": "reported by C15 only on arrival; C16-R6 added",
 }
+# wave 6 (ids *-H extract / move refactoring with a slip, *-I data-shape refactoring with a slip, *-J control-flow
+# refactoring with a slip): what the checks of commit 63a0f4f.. (before any wave-6 fix) reported when the changes arrived
+WAVE6 = json.load(open(os.path.join(HERE, "tools", "wave6_arrival.json")))
+WAVE6_NOTE = {
+ "C04-I": "missed by every check; C04-R5 added (must-dataflow: self.fval equals self.yval at the end of the initialisation)",
+ "C04-J": "missed by every check; C04-R6 added (finite-domain evaluation of the noise-level start-up code over {None, False, True}^2)",
+ "C10-J": "missed by every check (the pair-format test was matched loosely); C10-R4 now evaluates the test as a truth table over 'is a tuple' x 'has length 2'",
+ "C12-H": "missed by every check because TagFlow bound the targets of a tuple assignment one after the other (a, b = b, a); the right-hand side is now evaluated first, C12-R3 reports the swapped pair",
+ "C12-J": "missed by every check; C12-R5 now path-sensitive (every path to the new-row stores has tested the record flag true)",
+ "C15-H": "missed by every check; C15-R8 added (the surrogate a step works with is selected around the incumbent)",
+ "C16-H": "missed by every check; C16-R8 added (the vector installed with set_hyperparameters in the retry handler is the one the next attempt starts from)",
+ "C20-J": "missed by every check; C20-R2 now rejects an early exit (break / return) from the name-validation loop",
+ "C01-H": "reported by C02 / C08 only on arrival; C01-R2 now requires a finiteness guard before the validator's x0 (possibly the NaN placeholder) reaches the constraint callable",
+ "C07-I": "reported by C01 / C08 / C11 only on arrival (conservatively: dtype / copy not established through the list built in a loop); the normaliser now unrolls the loop and the list, C20-R5 names the alias, and the rule is shared as C07-R6",
+ "C08-H": "reported by C01 only on arrival - and for a reason that does not hold for C01 (a clamp to the hard bounds keeps x0 in the box): ValPolicy corrected, C08-R7 added (x0 is clamped to the *effective* bounds)",
+ "C09-I": "reported by C20-R5 (the caller's arrays are overwritten; the crash of the second run is its consequence); not a C09 clause of its own",
+ "C09-J": "reported by C18-R7 only on arrival; the hedge-reward finiteness rule is shared as C09-R9",
+ "C04-H": "reported on arrival only as 'construct not found' (argmin(..).item() not followed), which the repaired refactoring triggered as well; C04-R3 now follows the scalar conversion and reports the short slice",
+ "C15-I": "reported on arrival only as 'construct not found' (rows appended by a setattr loop over a dict), which the repaired refactoring triggered as well; dict-built loops are unrolled, C15-R1 reports the SD that is not squared",
+ "C12-I": "reported on arrival with a confused message; lists built from literals are unrolled with per-copy temporaries and the growth analysis follows locals: C12-R4 reports the NaN fill of n_evals",
+ "C17-H": "reported on arrival only as 'constraint stage not found'; new public helpers are inlined, the constraint mask is read NaN-strictly: 'not (C > 0)' keeps NaN rows",
+ "C19-I": "reported on arrival as 'result field not found'; C19-R4 now says that dict.update() bypasses the copying item setter",
+}
 import re
 def needs_from_notes(sid):
     f = os.path.join(HERE, "seeded", sid, "NOTES.md")
@@ -135,6 +158,8 @@ def needs_from_notes(sid):
         return None
     txt = open(f, encoding="utf-8", errors="replace").read()
     letter = sid.split("-")[1]
+    if sid in WAVE6:
+        letter = {"H": "E", "I": "F", "J": "G"}.get(letter, letter)  # wave-6 notes are headed E / F / G
     m = re.search(r"^## Change %s\b.*?(?=^## Change [A-Z]\b|\Z)" % letter, txt, re.S | re.M)
     sec = m.group(0) if m else txt
     lines = sec.splitlines()
@@ -167,7 +192,20 @@ for sid in sorted(os.listdir(os.path.join(HERE, "seeded"))):
         nt = needs_from_notes(sid)
         if nt:
             m["needs_to_manifest"] = nt
-    if sid in WAVE3:
+    if sid in WAVE6:
+        w = WAVE6[sid]
+        m["wave"] = 6
+        m["reported_on_arrival_by"] = w["reported_on_arrival_by"]
+        m["rules_on_arrival"] = w.get("rules_on_arrival", [])
+        if w["analysis_error_on_arrival"]:
+            m["analysis_error_on_arrival"] = w["analysis_error_on_arrival"]
+        m["missed_when_it_arrived"] = not w["reported_on_arrival_by"]
+        if sid in WAVE6_NOTE:
+            m["strengthening"] = WAVE6_NOTE[sid]
+        nt = needs_from_notes(sid)
+        if nt:
+            m["needs_to_manifest"] = nt
+    elif sid in WAVE3:
         w = WAVE3[sid]
         m["wave"] = 3
         m["reported_on_arrival_by"] = w["reported_on_arrival_by"]
